@@ -10,7 +10,7 @@ FUNCTIONS = ['Distribution.sample', 'Gaussian._sample (triangular / sparse / gen
              'Beta._sample', 'Laplace._sample', 'Lognormal._sample', 'Uniform._sample', 'Cauchy._sample', 'wrapping into CUQIarray / Samples']
 BOUNDS = {'dims': '1..3', 'N': '1, 2, 3', 'Gaussian forms': 'cov / prec / sqrtcov / sqrtprec x scalar, vector, diagonal, dense, upper, lower (concrete small-integer matrices), below and above the sparse switch',
           'symbolic': 'the standard-normal / library draws, all scalar and vector parameters, the points at which densities are compared'}
-OUTSIDE = ["the law of numpy's / scipy's generators (taken by their documented parameterisation)", 'GMRF periodic (complex DFT construction)', 'ModifiedHalfNormal rejection loops',
+OUTSIDE = ["the law of numpy's / scipy's generators (taken by their documented parameterisation)", 'ModifiedHalfNormal rejection loops',
            'statistical agreement beyond the algebraic facts decided here']
 ASSUMPTIONS = ['numpy.random.randn/normal/gamma/laplace/uniform and scipy.stats.*.rvs produce draws with their documented densities',
                'affine families: s = mean + K e with e standard normal has covariance K K^T; the obligation R (s - mean) = e for the object\'s own sqrtprec R is equivalent to K = R^-1']
@@ -38,6 +38,11 @@ def configs(tier, seed=0):
                     continue
                 for N in [1, 2]:
                     out.append({'key': 'gmrf/%s/o%d/n%d/N%d' % (bc, order, n, N), 'kind': 'gmrf', 'family': 'GMRF', 'bc': bc, 'order': order, 'n': n, 'phys': 1, 'param': 'vector', 'N': N, 'box': True})
+    # periodic GMRF: complex spectral construction (needs the engine's SymComplex scalars)
+    for order in [1, 2]:
+        for n in [4, 5]:
+            out.append({'key': 'gmrf/periodic/o%d/n%d/N1' % (order, n), 'kind': 'gmrf-periodic', 'family': 'GMRF', 'bc': 'periodic', 'order': order, 'n': n, 'phys': 1, 'param': 'vector', 'N': 1,
+                        'box': True})
     for fam in ['Normal', 'Gamma', 'InverseGamma', 'Beta', 'Laplace', 'Uniform', 'Cauchy', 'Lognormal']:
         for d in [1, 2]:
             for pk in (['scalar'] if d == 1 else ['scalar', 'vector']):
@@ -120,6 +125,52 @@ def run(cfg, c):
                 lhs = rt * ((Preg.astype(object) @ (cols[k] - mean)) if not conc else Preg @ (cols[k] - mean))
                 rhs = (f.Dref.T.astype(object) @ E[:, k]) if not conc else f.Dref.T @ E[:, k]
                 c.prove_close('(P + sqrt(eps) I) sqrt(prec) (s - mean) = D^T xi (draw %d)' % k, lhs, rhs, tol=1e-5, info=fk(cfg, 'affine'))
+        return
+    if kind == 'gmrf-periodic':
+        f = cm.build(c, cfg)
+        d, N = f.dim, cfg['N']
+        for v in f.params.values():
+            cm.boxed(c, v, 8)
+        n0 = len(c.draws)
+        s = f.dist.sample(N)
+        if not wrap_checks(c, cfg, f.dist, s, N, d):
+            return
+        draws = c.draws[n0:]
+        c.prove('two standard-normal draw calls (real and imaginary part)', len(draws) == 2 and all(dr['kind'].startswith('normal') and int(np.prod(dr['shape'])) == d * N for dr in draws),
+                info=fk(cfg, 'draws'))
+        if len(draws) != 2:
+            return
+        A_ = cm.boxed(c, np.asarray(draws[0]['value'], dtype=dt).reshape(d, N), 8)
+        B_ = cm.boxed(c, np.asarray(draws[1]['value'], dtype=dt).reshape(d, N), 8)
+        mean = np.asarray(cm.expand(f.params['m'], d), dtype=dt)
+        p = f.params['p']
+        cols = columns(s, N, d, dt)
+        # the linear map of the construction, read off the real float code at unit draws (precision 1, mean 0)
+
+        class UnitRNG:
+            def __init__(self, vecs):
+                self.vecs, self.k = vecs, 0
+
+            def standard_normal(self, shape):
+                v = self.vecs[self.k]
+                self.k += 1
+                return np.asarray(v, dtype=float).reshape(shape)
+        g1 = cuqi.distribution.GMRF(np.zeros(d), 1.0, bc_type='periodic', order=cfg['order'], geometry=d)
+        Ma, Mb = np.zeros((d, d)), np.zeros((d, d))
+        for j in range(d):
+            e = np.eye(d)[:, j]
+            Ma[:, j] = np.asarray(g1._sample(1, rng=UnitRNG([e, np.zeros(d)])), dtype=float).ravel()
+            Mb[:, j] = np.asarray(g1._sample(1, rng=UnitRNG([np.zeros(d), e])), dtype=float).ravel()
+        rt = cm.ssqrt(p)
+        for k in range(N):
+            lin = (Ma.astype(object) @ A_[:, k] + Mb.astype(object) @ B_[:, k]) if not conc else Ma @ A_[:, k] + Mb @ B_[:, k]
+            c.prove_close('draw %d is real and equals mean + (Ma a + Mb b)/sqrt(prec) for ALL draws a, b' % k, rt * (cols[k] - mean), lin, tol=1e-7, info=fk(cfg, 'affine'))
+        # covariance of the draws vs the precision the log-density uses (the object's own operator): Q C Q = Q on the extracted map
+        P = np.asarray(g1._prec_op.get_matrix().toarray(), dtype=float)
+        C1 = Ma @ Ma.T + Mb @ Mb.T
+        err = float(np.abs(P @ C1 @ P - P).max())
+        c.prove('covariance C of the draws is a generalised inverse of the precision the log-density uses (P C P = P; max deviation %.3g)' % err, bool(err < 1e-6),
+                info=fk(cfg, 'covariance'))
         return
     if kind == 'lib':
         f = cm.build(c, cfg)
